@@ -521,3 +521,96 @@ Proof.
 Qed.
 
 
+
+(* ------------------------------------------------------------------ C44: quiescence *)
+
+Lemma enabled_complete s l s' :
+  step s l = Some s' -> external l = false -> In l (internal_labels s).
+Proof.
+  intros H Hext. unfold internal_labels.
+  destruct l; try discriminate Hext; simpl; try tauto;
+    (do 7 right; apply in_flat_map;
+     unfold step, on_client in H; destruct (find_client c (clients s)) as [x|] eqn:F; [|discriminate];
+     destruct (find_client_Some _ _ _ F) as [Hx <-]; exists x; split; [assumption|]; simpl; tauto).
+Qed.
+
+Lemma quiescent_spec s : quiescent s = true ->
+  forall l s', external l = false -> step s l = Some s' -> False.
+Proof.
+  unfold quiescent, enabled_internal. intros Q l s' Hext H.
+  pose proof (enabled_complete s l s' H Hext) as Hin.
+  assert (In l (filter (fun l => is_some (step s l)) (internal_labels s))) as Hf.
+  { apply filter_In. split; [assumption|]. rewrite H. reflexivity. }
+  destruct (filter _ _); [destruct Hf | discriminate].
+Qed.
+
+(* the converse, for completeness: a state where none of the server's steps can fire is quiescent *)
+Lemma quiescent_intro s : (forall l, external l = false -> step s l = None) -> quiescent s = true.
+Proof.
+  intros Hn. unfold quiescent, enabled_internal.
+  destruct (filter _ _) as [|l r] eqn:E; [reflexivity|].
+  assert (In l (l :: r)) as Hin by (left; reflexivity). rewrite <- E in Hin.
+  apply filter_In in Hin as [Hin Hs].
+  assert (external l = false) as Hext.
+  { unfold internal_labels in Hin. apply in_app_or in Hin as [Hin|Hin].
+    - simpl in Hin. repeat (destruct Hin as [<-|Hin]; [reflexivity|]). destruct Hin.
+    - apply in_flat_map in Hin as [x [_ Hl]]. simpl in Hl.
+      repeat (destruct Hl as [<-|Hl]; [reflexivity|]). destruct Hl. }
+  rewrite (Hn l Hext) in Hs. discriminate.
+Qed.
+
+Ltac stuck Q lbl := exfalso; eapply (Q lbl); [reflexivity | unfold step, on_client].
+
+Lemma quiescent_pipeline s :
+  quiescent s = true -> dirty s = false /\ token s = false /\ comp s = Idle.
+Proof.
+  intros Q0. pose proof (quiescent_spec s Q0) as Q.
+  assert (dirty s = false) as D.
+  { destruct (dirty s) eqn:D; [|reflexivity]. stuck Q Request. rewrite D. reflexivity. }
+  assert (comp s = Idle) as C.
+  { destruct (comp s) eqn:C; [reflexivity| | |].
+    - stuck Q ReadFile. rewrite C. reflexivity.
+    - stuck Q Store. rewrite C. reflexivity.
+    - stuck Q Signal. rewrite C. reflexivity. }
+  assert (token s = false) as T.
+  { destruct (token s) eqn:T; [|reflexivity]. stuck Q TakeToken. rewrite C, T. reflexivity. }
+  auto.
+Qed.
+
+(* once the server has nothing left to do (and is not shutting down): the last compile read the latest
+   content, its result is the stored one, and every connected client has been sent exactly that result
+   and is blocked waiting for the next one *)
+Lemma thm_quiescent_delivered s :
+  reachable s -> quiescent s = true -> cancelled s = false ->
+  last_read s = fv s /\
+  exists k, res s = Some (k, fv s) /\
+    forall x, In x (clients s) -> live_conn x = true ->
+      c_phase x = PWait /\ c_wake x = false /\ last_written x = Some (k, fv s).
+Proof.
+  intros R Q0 NC. pose proof (inv_reachable s R) as I. pose proof (i_p s I) as HP.
+  pose proof (quiescent_spec s Q0) as Q.
+  destruct (quiescent_pipeline s Q0) as [D [T C]].
+  assert (last_read s = fv s) as LR.
+  { pose proof (p_read_le s HP). destruct (N.eq_dec (last_read s) (fv s)) as [E|NE]; [assumption|].
+    assert (last_read s < fv s) as Hlt by lia.
+    destruct (p_pending s HP Hlt) as [Hp|[Hp|Hp]]; congruence. }
+  split; [assumption|].
+  pose proof (p_comp s HP) as CO. unfold comp_ok in CO. rewrite C in CO. unfold res_ver in CO.
+  pose proof (p_fv1 s HP) as F1.
+  destruct (res s) as [[k v]|] eqn:RS; [|lia].
+  exists k. assert (v = fv s) as -> by lia. split; [reflexivity|].
+  intros x Hx Live. unfold live_conn in Live.
+  apply andb_prop in Live as [Live Hcnt]. apply andb_prop in Live as [Hconn Hbad].
+  apply negb_true_iff in Hbad.
+  pose proof (find_client_In _ x (i_nodup s I) Hx) as F.
+  pose proof (i_c s I) as HC. rewrite Forall_forall in HC. specialize (HC x Hx).
+  destruct (c_phase x) eqn:P; simpl in Hcnt; try discriminate.
+  - stuck Q (Res101 (c_id x)). rewrite F, P, Hbad. reflexivity.
+  - stuck Q (Register (c_id x)). rewrite F, P. reflexivity.
+  - stuck Q (ClientRead (c_id x)). rewrite F, P, RS. reflexivity.
+  - stuck Q (ClientWrite (c_id x)). rewrite F, P, Hconn. reflexivity.
+  - destruct (c_wake x) eqn:W.
+    + stuck Q (ClientWake (c_id x)). rewrite F, P, W. reflexivity.
+    + split; [reflexivity|]. split; [reflexivity|].
+      pose proof (c_fresh _ _ _ _ HC W) as Fr. rewrite C, P, RS in Fr. apply Fr. exact Logic.I.
+Qed.
